@@ -10,7 +10,7 @@ from __future__ import annotations
 from urllib.parse import parse_qsl, unquote, urlsplit
 
 from ..models import routing_ref as R
-from ..monitors.reach import Reach
+from ..monitors.reach import Reach, opt
 from . import c03_routing_match as C3
 
 ID = "C12"
@@ -243,9 +243,9 @@ def gen_rules(rng):
 def run(shard, rec, rng):
     from werkzeug.routing import map as MP
 
-    reach = Reach(rec, {"MapAdapter.make_redirect_url": MP.MapAdapter.make_redirect_url, "MapAdapter.get_default_redirect": MP.MapAdapter.get_default_redirect,
-                        "MapAdapter.make_alias_redirect_url": MP.MapAdapter.make_alias_redirect_url, "MapAdapter.match": MP.MapAdapter.match,
-                        "MapAdapter.encode_query_args": MP.MapAdapter.encode_query_args, "MapAdapter.get_host": MP.MapAdapter.get_host})
+    reach = Reach(rec, {"MapAdapter.make_redirect_url": opt(lambda: MP.MapAdapter.make_redirect_url), "MapAdapter.get_default_redirect": opt(lambda: MP.MapAdapter.get_default_redirect),
+                        "MapAdapter.make_alias_redirect_url": opt(lambda: MP.MapAdapter.make_alias_redirect_url), "MapAdapter.match": opt(lambda: MP.MapAdapter.match),
+                        "MapAdapter.encode_query_args": opt(lambda: MP.MapAdapter.encode_query_args), "MapAdapter.get_host": opt(lambda: MP.MapAdapter.get_host)})
     cfg = TIERS[shard["_tier"]]
     for _ in range(cfg["maps"]):
         rules = gen_rules(rng)
